@@ -100,11 +100,11 @@ def flags() -> Any:
 
 # -- conversations ----------------------------------------------------------------------------------
 
-def conversation(role: str, who: str, explode: Optional[str] = None) -> Dict[str, Any]:
+def conversation(role: str, who: str, explode: Optional[str] = None, big: bool = False) -> Dict[str, Any]:
     """Client bytes and what kind of origin the role needs.  `who` in ('canary', 'adv', 'canary2')."""
     host = {'canary': 'canary.test', 'adv': 'adv.test', 'canary2': 'canary2.test'}[who]
     x = (b'X-Explode: ' + explode.encode() + b'\r\n') if explode else b''
-    body = stream(3000, len(who))
+    body = stream(3000 if not big else 1500000, len(who))
     if role == 'forward':
         req = b'POST http://%s/%s HTTP/1.1\r\nHost: %s\r\n%sContent-Length: %d\r\n\r\n' % (host.encode(), who.encode(), host.encode(), x, len(body)) + body
         return {'requests': [req], 'tunnel': None}
@@ -156,7 +156,7 @@ def build_world(c: Dict[str, Any], alone: Optional[str] = None) -> Tuple[K.World
                 pieces = G.cut(data, [x % max(1, len(data)) for x in adv.get('cuts', [])])
                 peer: K.Peer = K.Peer('adv', out=data, script=[['send', len(p)] for p in pieces], finish=adv.get('finish'))
             else:
-                peer = make_client('adv', conversation(adv['role'], 'adv', adv.get('explode')))
+                peer = make_client('adv', conversation(adv['role'], 'adv', adv.get('explode'), big=bool(adv.get('stuck_origin'))))
                 if adv.get('slow_reader'):
                     # never reads its response: the proxy keeps output pending for it for as long as it lives
                     peer.read_in_drain = False
@@ -183,10 +183,13 @@ def build_world(c: Dict[str, Any], alone: Optional[str] = None) -> Tuple[K.World
         role = c['adv']['role'] if owner == 'adv' and c['adv']['kind'] != 'bytes' else canary_role
         name = 'origin:%s#%d' % (host, idx)
         # responses must not depend on connection numbering (it differs between the alone run and the shared run)
-        if owner == 'adv' and c['adv'].get('slow_reader'):
+        if owner == 'adv' and c['adv'].get('stuck_origin'):
+            # accepts the connection and never reads: the proxy's upstream send buffer fills up under a 1.5 MB upload
+            o: K.Peer = K.Peer(name, read_in_drain=False)
+        elif owner == 'adv' and c['adv'].get('slow_reader'):
             # a large answer, then the origin closes: the upstream side of the adversary is over while its client side
             # still has megabytes pending
-            o: K.Peer = ReactiveOrigin(name, responder=lambda o_, raw, n: tag_response(host, n, raw, extra_body=stream(400000, 9), close=True),
+            o = ReactiveOrigin(name, responder=lambda o_, raw, n: tag_response(host, n, raw, extra_body=stream(400000, 9), close=True),
                                        finish='close_after_rx')
             o.expect_rx = 1
         else:
@@ -333,7 +336,7 @@ def evaluate(c: Dict[str, Any]) -> Tuple[List[Any], Dict[str, Any]]:
     st_ = r['state']
     adv = c['adv']
     f = c.get('fault') or {}
-    feat = {'canary': c['canary'], 'adv': adv['kind'] if adv['kind'] == 'bytes' else adv['role'],
+    feat = {'canary': c['canary'], 'adv': adv['kind'] if adv['kind'] == 'bytes' else adv['role'] + ('+stuck-origin' if adv.get('stuck_origin') else ''),
             'fault': f.get('type', 'plugin' if adv.get('explode') else 'none'),
             'what': f.get('errno') or f.get('what') or adv.get('explode')}
     info = {'fired': st_['fired'], 'inflight': st_['canary_inflight_at_fault'] or adv['kind'] == 'bytes' or bool(adv.get('explode')),
@@ -359,6 +362,14 @@ def evaluate(c: Dict[str, Any]) -> Tuple[List[Any], Dict[str, Any]]:
                             dict(feat, fields=diff),
                             {k_: (got.get(k_) if not isinstance(got.get(k_), bytes) else {'len': len(got[k_]), 'tail': got[k_][-40:]}) for k_ in diff},
                             {k_: (want[k_] if not isinstance(want[k_], bytes) else {'len': len(want[k_])}) for k_ in diff}))
+        # "the worker keeps running": a blocking-mode socket call that met a full kernel buffer would hold the single worker
+        # thread - and every connection it serves - for the socket timeout (10 s); the design avoids that by sending only
+        # once per readiness report.  Stalls on the adversary's sockets while other connections exist are reported.
+        st_adv = [s_ for s_ in w.stalls if s_['sock'] == 'client:adv' or (s_['sock'].startswith('upstream:') and
+                                                                        world_conn_owner(w, int(s_['sock'].split(':')[1])) == 'adv')]
+        if st_adv:
+            out.append(('worker-stalled-in-blocking-call-for-the-adversary', dict(feat, op=st_adv[0]['op']),
+                        {'stalls': len(st_adv), 'first': st_adv[0]}, 'no blocking call on a socket that is not ready'))
         return out, info
     finally:
         w.teardown()
@@ -412,6 +423,11 @@ def run_shard(spec: Dict[str, Any], seed: int, acc: Any) -> None:
                     for k_ in range(0, nacts, 2):
                         for pf in ('origin_close', 'origin_reset', 'client_shut'):
                             cases.append(dict(slow, fault={'type': 'peer', 'k': k_, 'what': pf}))
+                if spec['adv_role'] in ('forward', 'reverse', 'tunnel'):
+                    # the adversary uploads 1.5 MB to an origin that accepts and never reads
+                    stuck = dict(base, adv={'kind': 'conv', 'role': spec['adv_role'], 'stuck_origin': True})
+                    cases.append(stuck)
+                    cases.append(dict(stuck, adv_first=True))
                 for h in HOOKS:
                     if (h == 'web_route') == (spec['adv_role'] == 'web') and spec['adv_role'] in ('forward', 'tunnel', 'web'):
                         cases.append(dict(base, adv={'kind': 'conv', 'role': spec['adv_role'], 'explode': h}))
@@ -456,7 +472,10 @@ def run_shard(spec: Dict[str, Any], seed: int, acc: Any) -> None:
                     fault = {'type': 'peer', 'k': draw(st.integers(0, 12)), 'what': draw(st.sampled_from(PEER_FAULTS))}
                 else:
                     fault = {'type': 'connect', 'what': draw(st.sampled_from(CONNECT_FAULTS))}
-                return {'canary': draw(st.sampled_from(ROLES)), 'adv': {'kind': 'conv', 'role': arole, 'slow_reader': arole == 'forward' and draw(st.booleans())},
+                advd = {'kind': 'conv', 'role': arole, 'slow_reader': arole == 'forward' and draw(st.booleans())}
+                if not advd['slow_reader'] and arole in ('forward', 'reverse', 'tunnel') and draw(st.integers(0, 5)) == 0:
+                    advd['stuck_origin'] = True
+                return {'canary': draw(st.sampled_from(ROLES)), 'adv': advd,
                         'fault': fault, 'adv_first': draw(st.booleans()),
                         'schedule': draw(st.lists(st.integers(0, 4), max_size=60))}
 
